@@ -373,6 +373,8 @@ def _check(prop, tier, seed, tmp, t0):
             pop = "C03scale"
         if eng == "l2" and prop == "C10" and i in (5, 11):
             pop = "C10scale" if i == 5 else "C10scale8"
+        if eng == "l2" and prop == "C19" and i == 5:
+            pop = "C19scale"  # state reports while more than 2^16 jobs are outstanding
         report = None
         if eng == "l2" and prop == "C01" and i == 5:
             pop, report = "C10scale", "C01"  # a job with more than 2^16 dependencies (End function of a large collection)
